@@ -1,6 +1,7 @@
 package rules
 
 import (
+	"regexp"
 	"sort"
 	"strings"
 )
@@ -15,12 +16,14 @@ import (
 // of the module (a send or receive that is not in a select with a default arm)
 // the must-lockset at the operation holds only the locks of the table below,
 // each with the reason why the other side never needs it.
+var localNameRE = regexp.MustCompile(`local:[A-Za-z_][A-Za-z_0-9]*<`)
+
 var lockChanAllowed = map[string]string{
-	"xmpp.Session.in|xmpp.tokenReadChan.c":                                                  "the serve loop owns the input stream for the whole element; the requester reads the response through the reader that was handed to it and closes it without taking the input lock",
-	"xmpp.Session.in|expr:context.Context.Done[local:readerChan<xmpp.tokenReadChan>.ctx]()": "the other arm of the hand-off select: the requester's own context, which ends without any lock of the session",
-	"muc.Client.managedM|muc.joinCtx.j":                                                     "the joiner waits for the address in a select with its context and holds no lock of the client while it does; if it has gone, the done arm of the same select fires",
-	"muc.Client.managedM|muc.joinCtx.done":                                                  "the joiner's context channel: closed without any lock of the client",
-	"ibb.Listener.eLock|ibb.expected.c":                                                     "the expectation's channel has capacity 1 and gets one send: the entry is deleted under eLock before the send (C15.9), so the send never blocks",
+	"xmpp.Session.in|xmpp.tokenReadChan.c":                                        "the serve loop owns the input stream for the whole element; the requester reads the response through the reader that was handed to it and closes it without taking the input lock",
+	"xmpp.Session.in|expr:context.Context.Done[local:<xmpp.tokenReadChan>.ctx]()": "the other arm of the hand-off select: the requester's own context, which ends without any lock of the session",
+	"muc.Client.managedM|muc.joinCtx.j":                                           "the joiner waits for the address in a select with its context and holds no lock of the client while it does; if it has gone, the done arm of the same select fires",
+	"muc.Client.managedM|muc.joinCtx.done":                                        "the joiner's context channel: closed without any lock of the client",
+	"ibb.Listener.eLock|ibb.expected.c":                                           "the expectation's channel has capacity 1 and gets one send: the entry is deleted under eLock before the send (C15.9), so the send never blocks",
 }
 
 func lockHeldAcrossChannelOp(c *cx, id string, pkgPrefix string) int {
@@ -46,6 +49,8 @@ func lockHeldAcrossChannelOp(c *cx, id string, pkgPrefix string) int {
 			// until it ends everybody who needs the mutex waits with it: such
 			// sites are table entries with a reason, not exempt)
 			n++
+			// (table keys do not depend on what a local variable is called)
+			op.class = localNameRE.ReplaceAllString(op.class, "local:<")
 			ls, ok := li.AtNode(op.node)
 			if !ok {
 				// comm statements of a select: the lockset of the select
